@@ -302,6 +302,45 @@ pub fn run(a: &Args) {
                     rec["restore"] = json!(r.class());
                     rec["restore_msg"] = json!(r.msg());
                     rec["restored"] = tojson(&project(&dest.join("s"), true));
+                    // (1b) restore once more over the restored copy after part of every larger file was overwritten
+                    // (same size, new mtime: the leading chunks are still right, the trailing ones are not) and one file removed
+                    let mut damaged = 0;
+                    let mut rd = Rng::new(seed ^ t ^ 0xD0);
+                    fn damage(dir: &Path, rd: &mut Rng, n: &mut usize) {
+                        let Ok(rdir) = std::fs::read_dir(dir) else { return };
+                        for e in rdir.flatten() {
+                            let p = e.path();
+                            let Ok(md) = std::fs::symlink_metadata(&p) else { continue };
+                            if md.is_dir() {
+                                damage(&p, rd, n);
+                            } else if md.is_file() && md.nlink() == 1 && md.len() >= 2 && md.permissions().mode() & 0o200 != 0 {
+                                if let Ok(mut d) = std::fs::read(&p) {
+                                    let from = match rd.below(3) { 0 => d.len() / 2, 1 => d.len() - 1, _ => rd.below(d.len() as u64) as usize };
+                                    for b in &mut d[from..] {
+                                        *b = b.wrapping_add(1);
+                                    }
+                                    if std::fs::write(&p, &d).is_ok() {
+                                        *n += 1;
+                                    }
+                                }
+                            }
+                        }
+                    }
+                    if r.is_ok() {
+                        damage(&dest.join("s"), &mut rd, &mut damaged);
+                        let r1b = scn::guard(|| {
+                            let repo = scn::open(&h, &key)?.to_indexed()?;
+                            scn::restore_to(&repo, &sn, &dest, &RestoreOptions::default())
+                        });
+                        rec["restore2"] = json!(r1b.class());
+                        rec["restore2_msg"] = json!(r1b.msg());
+                        rec["restored2"] = tojson(&project(&dest.join("s"), true));
+                    } else {
+                        rec["restore2"] = json!("skipped");
+                        rec["restore2_msg"] = json!("");
+                        rec["restored2"] = json!([]);
+                    }
+                    rec["damaged_before_restore2"] = json!(damaged);
                     // (2) ls + dump + ranged reads
                     let r2 = scn::guard(|| {
                         let repo = scn::open(&h, &key)?.to_indexed()?;
